@@ -21,11 +21,12 @@ type cobraModel struct {
 	parent  map[string]string        // child -> parent
 	all     []string                 // all command globals
 	callers map[*ssa.Function][]ssa.CallInstruction
+	args    map[string]string // command global -> its positional-argument validator ("NoArgs", "MaximumNArgs(1)", ...)
 }
 
 func (c *Ctx) buildCobraModel() *cobraModel {
 	m := &cobraModel{c: c, cmdOf: map[ssa.Value]string{}, handler: map[*ssa.Function]string{}, persist: map[*ssa.Function]bool{},
-		parent: map[string]string{}, callers: map[*ssa.Function][]ssa.CallInstruction{}}
+		parent: map[string]string{}, callers: map[*ssa.Function][]ssa.CallInstruction{}, args: map[string]string{}}
 	pkg := c.ssapkg("cmd")
 	if pkg == nil {
 		return nil
@@ -66,6 +67,25 @@ func (c *Ctx) buildCobraModel() *cobraModel {
 			g, isCmd := m.cmdOf[base]
 			if !isCmd {
 				return
+			}
+			if name == "Args" {
+				switch x := st.Val.(type) {
+				case *ssa.Function:
+					m.args[g] = x.Name()
+				case *ssa.Call:
+					d := x.Call.Value.Name()
+					if callee := staticCallee(&x.Call); callee != nil {
+						d = callee.Name()
+					}
+					for _, a := range x.Call.Args {
+						if k, ok := constInt(a); ok {
+							d += fmt.Sprintf("(%d)", k)
+						}
+					}
+					m.args[g] = d
+				default:
+					m.args[g] = "?"
+				}
 			}
 			if f := funcOfValue(st.Val); f != nil {
 				if strings.Contains(f.Name(), "$") {
@@ -218,6 +238,13 @@ func ruleFlags(c *Ctx) {
 				continue
 			}
 			fsName := calleeName(&fsCall.Call)
+			if strings.HasPrefix(meth, "Get") && strings.Contains(fsName, "cobra.Command.") && strings.HasSuffix(fsName, "Flags") && !strings.HasSuffix(fsName, "cobra.Command.Flags") && !strings.HasSuffix(fsName, "cobra.Command.PersistentFlags") {
+				// InheritedFlags / LocalFlags / LocalNonPersistentFlags see a part of the flags only: for the command that
+				// defines a persistent flag it is not inherited, for its sub-commands it is not local
+				c.site(1)
+				c.bad(fmt.Sprintf("get|%s|%q|flagset", fname(fn), name), c.pos(ci.Pos()), fname(fn), fmt.Sprintf("--%s is read through %s, which does not see the flag on every command that defines or inherits it: there the flag is silently ignored", name, fsName[strings.LastIndex(fsName, ".")+1:]))
+				continue
+			}
 			if !strings.HasSuffix(fsName, "cobra.Command.Flags") && !strings.HasSuffix(fsName, "cobra.Command.PersistentFlags") {
 				continue
 			}
